@@ -141,14 +141,15 @@ def find_witness(pid, obligation):
             if ok and pid == "C16":
                 # k spoken zeros + a spelled number -> k zeros + its digits
                 zero = {"en": "zero", "fr": "zéro", "es": "cero", "pt": "zero", "it": "zero", "de": "null", "nl": "nul"}
-                phrases = {"en": [("one million", "1000000"), ("one hundred", "100"), ("one thousand", "1000"), ("twenty", "20")],
-                           "fr": [("un million", "1000000"), ("cent", "100"), ("mille", "1000")],
-                           "es": [("un millón", "1000000"), ("cien", "100"), ("mil", "1000")],
-                           "pt": [("um milhão", "1000000"), ("cem", "100"), ("mil", "1000")],
-                           "it": [("un milione", "1000000"), ("un miliardo", "1000000000"), ("cento", "100"), ("mille", "1000")],
-                           "de": [("zwei millionen", "2000000"), ("hundert", "100"), ("tausend", "1000")],
-                           "nl": [("een miljoen", "1000000"), ("honderd", "100"), ("duizend", "1000")]}
-                for k in (1, 2):
+                phrases = {"en": [("one million", "1000000"), ("one hundred", "100"), ("one thousand", "1000"), ("twenty", "20"),
+                                  ("one hundred twenty five thousand", "125000"), ("five thousand", "5000"), ("twenty thousand", "20000"), ("two million", "2000000")],
+                           "fr": [("un million", "1000000"), ("cent", "100"), ("mille", "1000"), ("cent vingt-cinq mille", "125000"), ("cinq mille", "5000"), ("cinq cents", "500")],
+                           "es": [("un millón", "1000000"), ("cien", "100"), ("mil", "1000"), ("ciento veinticinco mil", "125000"), ("cinco mil", "5000")],
+                           "pt": [("um milhão", "1000000"), ("cem", "100"), ("mil", "1000"), ("cento e vinte e cinco mil", "125000"), ("cinco mil", "5000")],
+                           "it": [("un milione", "1000000"), ("un miliardo", "1000000000"), ("cento", "100"), ("mille", "1000"), ("cinque mila", "5000"), ("due milioni", "2000000")],
+                           "de": [("zwei millionen", "2000000"), ("hundert", "100"), ("tausend", "1000"), ("fünf tausend", "5000")],
+                           "nl": [("een miljoen", "1000000"), ("honderd", "100"), ("duizend", "1000"), ("vijf duizend", "5000")]}
+                for k in (1, 2, 3, 6):
                     for ph, dg in phrases.get(code, []):
                         w = {"kind": "call", "fn": "text2digits", "lang": code, "text": (zero[code] + " ") * k + ph,
                              "expect": {"equals": "Ok(%s)" % json.dumps("0" * k + dg)}}
@@ -158,7 +159,7 @@ def find_witness(pid, obligation):
                             return w
             if ok and os.path.exists(rows_path):
                 for row in json.load(open(rows_path)):
-                    if row.get("expect") is None:
+                    if row.get("expect") is None or row.get("known_finding"):
                         continue
                     w = {"kind": "call", "fn": "text2digits", "lang": code, "text": row["word"],
                          "expect": {"equals": "Ok(%s)" % json.dumps(row["expect"], ensure_ascii=False)}}
@@ -222,6 +223,60 @@ def find_witness(pid, obligation):
     return None
 
 
+STANDIN_MODES = {"C02": ["ident"], "C05": ["dec"], "C06": ["wf"], "C07": ["consist"], "C09": ["thr"], "C11": ["ncase"], "C15": ["iter"], "C18": ["orule"]}
+STANDIN_BOUND = {
+    "ident": "22 texts without number words x 7 languages x thresholds {0,10} must come back identical; 7 number phrases x 6 punctuation frames",
+    "dec": "16 decimal phrases (7 languages): rewritten text and Occurence.value",
+    "wf": "29 token streams (7 languages, pause / not-a-number hints) x thresholds {0,10,1000}: spans ordered, text/value/is_ordinal consistent",
+    "consist": "29 token streams x 3 thresholds: validator(span words) == occurrence text; at threshold 0 no lone number word is left out",
+    "thr": "29 token streams x 3 thresholds: threshold only hides small lone numbers; 3 linked-number sentences",
+    "iter": "29 token streams x 3 thresholds: find_numbers_iter == find_numbers",
+    "orule": "11 English sentences with 'o' next to words, punctuation and no-break spaces",
+    "ncase": "11 words with non-ASCII letters, those letters capitalised",
+    "rows": "every word of the grammar tables of all seven languages, alone, through text2digits",
+    "zeros": "k in {1,2,3,6} zero words before 4-8 phrases per language",
+    "meta": "sentences harvested from /repo's own test literals under the metamorphic relation of the property",
+}
+
+
+def standin(pid):
+    """bounded stand-in on the REAL crate, used when the verifier cannot decide (never counted as proof).
+    returns (witness or None, [description of the searches run])"""
+    ran = []
+    ok, err = build_witness()
+    if not ok:
+        return None, ["witness programs could not be built: " + err[-300:]]
+    for m in STANDIN_MODES.get(pid, []):
+        p = subprocess.run([wbin("standin"), m, gen.REPO], capture_output=True, text=True, timeout=600)
+        try:
+            w = json.loads(p.stdout.strip().split("\n")[-1])
+        except Exception:
+            continue
+        ran.append({"search": m, "bound": STANDIN_BOUND[m], "cases": w.get("cases"), "found": w.get("kind") == "standin"})
+        if w.get("kind") == "standin":
+            return w, ran
+    if pid in ("C01", "C04", "C08", "C16", "C14"):
+        for code in ["en", "fr", "es", "pt", "it", "de", "nl"]:
+            w = find_witness(pid, {"unit": "lang_" + code, "fn": "", "kind": "standin"})
+            if w:
+                ran.append({"search": "rows/" + code, "bound": STANDIN_BOUND["zeros" if pid == "C16" else "rows"], "found": True})
+                return w, ran
+        ran.append({"search": "rows", "bound": STANDIN_BOUND["zeros" if pid == "C16" else "rows"], "found": False})
+    if pid in ("C10", "C11", "C17", "C06", "C13", "C03"):
+        w = find_witness(pid, {"unit": "scan", "fn": "get_interpreter_for" if pid == "C13" else "", "kind": "body"})
+        ran.append({"search": "meta/" + pid, "bound": STANDIN_BOUND["meta"], "found": bool(w)})
+        if w:
+            return w, ran
+    if pid == "C12":
+        for fn in ["put", "put_digit_at", "fput", "shift", "push", "is_range_free", "is_free", "to_string"]:
+            w = find_witness(pid, {"unit": "ds", "fn": "DigitString::" + fn})
+            if w:
+                ran.append({"search": "ds_ops/" + fn, "bound": "operation sequences of length <= 3 against an executable model", "found": True})
+                return w, ran
+        ran.append({"search": "ds_ops", "bound": "operation sequences of length <= 3 against an executable model", "found": False})
+    return None, ran
+
+
 def replay(path):
     rep = json.load(open(path))
     print(f"property {rep['property']}: failed obligation {rep['obligation']}")
@@ -244,6 +299,10 @@ def replay(path):
         return 1 if p.returncode == 1 else 0
     if w.get("kind") == "meta":
         p = subprocess.run([wbin("meta_witness"), "--replay", json.dumps(w)], capture_output=True, text=True)
+        print(p.stdout.strip())
+        return 1 if p.returncode == 1 else 0
+    if w.get("kind") == "standin":
+        p = subprocess.run([wbin("standin"), "--replay", json.dumps(w)], capture_output=True, text=True)
         print(p.stdout.strip())
         return 1 if p.returncode == 1 else 0
     if w.get("kind") == "call":
